@@ -82,13 +82,10 @@ SrcPortsEph == {"eph"}
 SrcPortsTwo == {"eph", "p123"}
 \* senders on ports other than ephemeral ones go with: all 256 first bytes (LI x
 \* version x mode) x {IP, SCION with the empty path and IPv4 hosts} x
-\*   TLC (PortExh):     every shape (listener started with an interface name: the
-\*                      generators' four), every store / ancillary-data class the
-\*                      other constraints admit
+\*   TLC (PortExh):     every shape, every circumstance the other constraints admit
 \*   generators (PortGen): 47 / 48 bytes, a valid and an unauthentic NTS request,
 \*                      plain circumstances
-PortExh(x) == x.sp = "eph" \/ (/\ <<x.tp, x.pk, x.fam>> \in ViasEnv
-                              /\ (PlainStart \/ <<x.len, x.tr>> \in ShapesEnv))
+PortExh(x) == x.sp = "eph" \/ <<x.tp, x.pk, x.fam>> \in ViasEnv
 PortGen(x) == x.sp = "eph" \/ (/\ <<x.tp, x.pk, x.fam>> \in ViasEnv /\ <<x.len, x.tr>> \in ShapesEnv
                               /\ PlainStart /\ PlainDraft(x))
 PortsExh == draft.stage = "addr" => PortExh(draft)
